@@ -1,5 +1,5 @@
 (* Test-case dispatch for model R (run-time model). Opcodes 100-199. *)
-From AJ Require Import Common.Util Extract.Codec Run.RModel Run.RMon Run.RProps1 Run.RProps2 Run.RProps3 Run.RWin Run.RProps4.
+From AJ Require Import Common.Util Extract.Codec Run.RModel Run.RMon Run.RProps1 Run.RProps2 Run.RProps3 Run.RWin Run.RProps4 Run.RProps5.
 
 Definition rd_optN : reader (option N) := rd_opt rd_N.
 
@@ -76,7 +76,7 @@ Definition replay (lvl : nat) (c : cfg) (h : list event) : list N :=
 
 (* registered monitors: (property number * 10 + part, check) *)
 Definition monitors : list (nat * (cfg -> state -> event -> bool)) :=
-  [(10, chk01); (20, chk02a); (41, chk_end); (51, chk_nostart); (52, chk_exit); (111, chk_over); (140, chk14); (70, chk07); (120, chk12)].
+  [(10, chk01); (20, chk02a); (41, chk_end); (51, chk_nostart); (52, chk_exit); (111, chk_over); (140, chk14); (70, chk07); (120, chk12); (130, chk13)].
 
 Definition run_rcase (op : N) : reader (list N) :=
   match op with
